@@ -15,6 +15,7 @@
 package main
 
 import (
+	"encoding/hex"
 	"encoding/json"
 	"fmt"
 	"math"
@@ -23,6 +24,7 @@ import (
 	"sort"
 	"strconv"
 	"strings"
+	"unicode/utf8"
 
 	"verif/harness/vrun"
 
@@ -175,6 +177,9 @@ func enc(v data.GetValue) interface{} {
 	case *data.IntValue:
 		return map[string]string{"i": strconv.Itoa(x.Value)}
 	case *data.StringValue:
+		if !utf8.ValidString(x.Value) {
+			return map[string]string{"h": hex.EncodeToString([]byte(x.Value))}
+		}
 		return map[string]string{"s": x.Value}
 	case *data.FloatValue:
 		b := strconv.FormatUint(math.Float64bits(x.Value), 10)
